@@ -235,28 +235,44 @@ def stateAt (cfg : Cfg) (its : List Iter) (n : Nat) : HState := (its.take n).fol
 
 /-! ### `idle_reset_time` derived from the history of processed events
 
-One `Ev` per `process_resource_event` of the object that reaches `process_spawning_cause`:
-`reset = bool(diff(old, new))` where `old` is the essence stored on the object as LAST HANDLED
-(`none`: nothing stored, e.g. no change handlers at all) and `new` the essence of the event's body —
-not the essence of the previously seen version. Essences are abstracted to `Nat`. -/
+One `Ev` per `process_resource_event` of the object (`_detect_causes` → `process_spawning_cause`), in
+processing order, for ONE per-object memory (one operator process; it is created by the first event):
+
+    seen = memory.last_seen_essence;  seen = new if seen is None else seen;  memory.last_seen_essence = new
+    reset = bool(diff(old, new)) or bool(diff(seen, new))
+
+where `old` is the essence stored on the object as LAST HANDLED (`none`: nothing stored, e.g. no change
+handlers at all), `new` the essence of the event's body and `seen` the essence of the previously
+processed event. Essences are abstracted to `Nat`. -/
 structure Ev where
   t : Int                       -- loop time at which the event is processed
   ess : Nat                     -- essence of the event's body (`new`)
   lastHandled : Option Nat      -- last-handled essence the body carries (`old`)
   deriving DecidableEq, Repr
 
-def resetsIdle (lastHandled : Option Nat) (new : Nat) : Bool := lastHandled != some new
+/-- The two facts the reset condition reads. -/
+structure ResetAtoms where
+  diffLastHandled : Bool   -- `bool(diff)`: the essence differs from the last-handled one (or none is stored)
+  diffSeen : Bool          -- `bool(diffs.diff(seen, new))`: it differs from the previously processed one
+  deriving DecidableEq, Repr
 
-/-- the event writes `idle_reset_time` (the operator registers it as a change) -/
-def Ev.registered (e : Ev) : Bool := resetsIdle e.lastHandled e.ess
+def resetCond (a : ResetAtoms) : Bool := a.diffLastHandled || a.diffSeen
+
+/-- the event writes `idle_reset_time`; `seen = none` on the first event of the memory (`seen := new`) -/
+def resetsIdle (lastHandled seen : Option Nat) (new : Nat) : Bool :=
+  resetCond { diffLastHandled := lastHandled != some new, diffSeen := seen.getD new != new }
+
+/-- one event: (`idle_reset_time` as read at `t`, `last_seen_essence`) -/
+def viewStep (t : Int) (s : Int × Option Nat) (e : Ev) : Int × Option Nat :=
+  (if resetsIdle e.lastHandled s.2 e.ess && decide (e.t ≤ t) && decide (s.1 ≤ e.t) then e.t else s.1, some e.ess)
 
 /-- `memory.idle_reset_time` as read at `t`: the creation time of the memory, or the time of the latest
-    registered event processed so far (events of the same instant count as processed). -/
+    resetting event processed so far (events of the same instant count as processed). -/
 def viewOf (created : Int) (evs : List Ev) (t : Int) : Int :=
-  evs.foldl (fun acc e => if e.registered && decide (e.t ≤ t) && decide (acc ≤ e.t) then e.t else acc) created
+  (evs.foldl (viewStep t) (created, none)).1
 
 /-- Times at which the object's essence changed from the previously processed version (the first sight
-    of the object counts): the property's "essential changes", as the operator could see them. -/
+    of the object counts): the property's "essential changes", as far as the operator can see them. -/
 def essentialTimes : Option Nat → List Ev → List Int
   | _, [] => []
   | prev, e :: es => (if prev = some e.ess then [] else [e.t]) ++ essentialTimes (some e.ess) es
@@ -265,9 +281,10 @@ def essentialTimes : Option Nat → List Ev → List Int
 def FullIdle (idle : Int) (evs : List Ev) (its : List Iter) : Prop :=
   ∀ it ∈ its, it.res.isSome = true → ∀ c ∈ essentialTimes none evs, c ≤ it.start → idle ≤ it.start - c
 
-/-- The exact guard under which the full clause holds: every essential change is registered. -/
-def AllEssentialRegistered (evs : List Ev) : Prop :=
-  ∀ c ∈ essentialTimes none evs, ∃ e ∈ evs, e.t = c ∧ e.registered = true
+/-- The memory (hence `idle_reset_time`'s initial value, the loop time of its creation) is created by the
+    first event's `memories.recall`: it is not older than the first processed event. -/
+def CreatedByFirstEvent (created : Int) (evs : List Ev) : Prop :=
+  ∀ e, evs.head? = some e → e.t ≤ created
 
 /-! ### Executable form (for the step comparison with the real operator)
 
